@@ -68,6 +68,10 @@ class Sched:
         self.parked = set()  # PCT-style: threads whose priority was dropped below all others
         self.writes = [0] * n  # per thread: shared-state write lines seen so far
         self.park_at = {int(k): v for k, v in (params.get("park_at") or {}).items()}
+        # pct_shared: park a thread right before its k-th access to module-level state that the
+        # generation of a kernel was seen to mutate (engine T finds those names per run)
+        self.shared_seen = [0] * n
+        self.park_at_shared = {int(k): v for k, v in (params.get("park_at_shared") or {}).items()}
         self.on_point = None  # callable(sched, me, label) for run-specific probes
         # engine S turns lock operations off as yield points: whether a compile lock is taken at all
         # depends on what the worker's kernel cache already holds
@@ -106,7 +110,7 @@ class Sched:
             raise Abandoned()
 
     # ------------------------------------------------------------- yield point
-    def point(self, label, hot, write=False):
+    def point(self, label, hot, write=False, shared=False):
         me = self.tid()
         if me is None or me != self.cur or self.abandoned:
             return
@@ -133,7 +137,8 @@ class Sched:
                 r = [i for i in self.runnable() if i != me]
                 if r:
                     self.parked.add(me)
-                    self.probe("parked_at_shared_write")
+                    self.probe("parked_at_shared_access" if self.strategy == "pct_shared"
+                               else "parked_at_shared_write")
                     self._switch_to(me, arg if arg in r else r[0], label)
             elif kind == "sw":
                 r = self.runnable()
@@ -146,7 +151,22 @@ class Sched:
         decision = None
         if write:
             self.writes[me] += 1
-        if self.strategy == "pct_writes":
+        if shared:
+            self.shared_seen[me] += 1
+            self.probe("shared_state_access_lines")
+        if self.strategy == "pct_shared":
+            if shared and self.park_at_shared.get(me) == self.shared_seen[me]:
+                others = [i for i in self.runnable() if i != me]
+                if others:
+                    nxt = self.rng.choice(others)
+                    self.parked.add(me)
+                    self.probe("parked_at_shared_access")
+                    self._record(me, "park", nxt)
+                    self._switch_to(me, nxt, label)
+                return
+            if self.rng.random() < self.p_cold:
+                decision = ("sw", self.rng.choice(self.runnable()))
+        elif self.strategy == "pct_writes":
             # park this thread right before its k-th write to shared state (attribute / global /
             # subscript store in tensora/compile/* or tensor.py) until all others finish or block
             if write and self.park_at.get(me) == self.writes[me]:
